@@ -40,6 +40,11 @@ def impl_css(s, is_value):
         return ('err', e.pos)
     except Exception as e:  # internal error: never equal to a model result
         return ('internal', type(e).__name__)
+    return ('ok', canon_css_tokens(toks))
+
+
+def canon_css_tokens(toks):
+    """Canonical [(kind, start, end)] of a list of stylesheet token objects."""
     out = []
     for t in toks:
         ty = t.type
@@ -64,7 +69,7 @@ def impl_css(s, is_value):
         else:
             k = ('?', ty)
         out.append((k, t.start, t.end))
-    return ('ok', out)
+    return out
 
 
 def read_dec(r):
@@ -194,13 +199,15 @@ def run_css(ctx, built=None):
             '(input, mode)') % (n_ex, nalpha)
     ctx.cov['rule'] = (ctx.cov.get('rule') + ' || ' if ctx.cov.get('rule') else '') + rule
     impl = [impl_css(s, v) for s, v in cases]
-    for (s, v), r in zip(cases, impl):
+    import c18_seq
+    reporter = c18_seq.StreamReporter(ctx, 'css')   # re-runs the first failures alone in a fresh interpreter
+    for j, ((s, v), r) in enumerate(zip(cases, impl)):
         ctx.count_eval()
         bad = tiling_oracle(s, r)
         if bad:
-            ctx.property_failure('css:%s:%s' % ('value' if v else 'property', s),
-                                 'css tokenize(%r, is_value=%r): %s' % (s, v, bad),
-                                 {'component': 'css', 'input': s, 'is_value': v, 'impl': repr(r), 'why': bad})
+            reporter.report(cases, j, 'css:%s:%s' % ('value' if v else 'property', s),
+                            'css tokenize(%r, is_value=%r): %s' % (s, v, bad),
+                            {'component': 'css', 'input': s, 'is_value': v, 'impl': repr(r), 'why': bad})
         if r[0] == 'err':
             ctx.cover('css:scanner-error')
             ctx.nontrivial(('c', s, v))
@@ -210,6 +217,7 @@ def run_css(ctx, built=None):
                 ctx.nontrivial(('c', s, v))
             for k, _, _ in r[1]:
                 ctx.cover('css:token:' + k[0])
+    reporter.finish()
     for (s, v), r in list(zip(cases, impl))[60:64]:
         ctx.sample({'component': 'css', 'input': s, 'is_value': v, 'impl': repr(r)[:200]})
     if model is not None:
